@@ -551,6 +551,8 @@ def replay_case(art):
         if sum(v["cuts"]) > (1 << 24):
             return None, "stable prefix too large to build natively"
         args = ["advance", "0", ",".join(str(c) for c in v["cuts"]), str(v["count"])]
+    if v["side"] == "stream-growth":
+        args = ["stream-growth", "@" + inpath, "none" if v.get("max_size") is None else str(v["max_size"]), "none" if v.get("limit") is None else str(v["limit"])]
     if v["side"] == "stream":
         args = ["stream", "@" + inpath, "none" if v.get("max_size") is None else str(v["max_size"]), "none" if v.get("limit") is None else str(v["limit"])]
     p = subprocess.run(["cargo", "run", "--offline", "-q", "--"] + args, cwd=d, env=env, stdout=subprocess.PIPE, stderr=subprocess.STDOUT, text=True, timeout=900)
@@ -591,6 +593,14 @@ def replay_case(art):
             if bad:
                 return True, "native %s on %s, counts %r, %s: %s" % (v["side"], _short(v["input"]), v["cuts"], l.split(" => ")[0][9:], bad)
         return False, "native %s agrees with the contract on %s" % (v["side"], _short(v["input"]))
+    if v["side"] == "stream-growth":
+        lines = [l for l in out.splitlines() if l.startswith("GROWTH ")]
+        if not lines:
+            return None, "replay driver failed: " + out[-400:]
+        for l in lines:
+            if int(l.split(" => ")[1]) > 0:
+                return True, "native StreamReader on %s (max_record_size %s) %s: the iovec grew by %s bytes after the judge had answered SkipRecord" % (_short(v["input"]), v.get("max_size"), l.split(" => ")[0][7:], l.split(" => ")[1])
+        return False, "native StreamReader never grows a skipped record on %s" % _short(v["input"])
     if v["side"] == "stream":
         want = ";".join("%d-%d:%s" % (r[1][0], r[1][1], ".".join(str(x) for x in r[0])) for r in v["expected"]["records"])
         lines = [l for l in out.splitlines() if l.startswith("STREAM ")]
@@ -1239,7 +1249,7 @@ def run_stream_reader(mod, it, stream, max_size, limit, max_calls=None):
                     continue
                 opt = v.fields[0]
                 if opt.name == "None":
-                    out.append((r.state.cond, recs, "eof", []))
+                    out.append((r.state.cond, recs, "buffers a skipped record" if buffered_after_skip(r.state.events, max_size) else "eof", []))
                     continue
                 tup = opt.fields[0]
                 rng = tup.fields[1]
@@ -1250,6 +1260,9 @@ def run_stream_reader(mod, it, stream, max_size, limit, max_calls=None):
                     continue
                 if faults:
                     out.append((r.state.cond, recs, "anchor", faults))
+                    continue
+                if buffered_after_skip(r.state.events, max_size):
+                    out.append((r.state.cond, recs, "buffers a skipped record", []))
                     continue
                 nxt.append((r.state, recs + [(rec, (rng.get("start"), rng.get("end")))]))
         work = nxt
@@ -1277,6 +1290,23 @@ def anchor_faults_all(events):
         if borrowed and not kept:
             bad.append(i)
     return bad
+
+
+def buffered_after_skip(events, max_size):
+    """True when, inside one record (between two clear()s), the judge has seen more than max_size decoded bytes
+    (its verdict is then SkipRecord) and the iovec kept growing afterwards: a skipped record must not be buffered."""
+    if max_size is None:
+        return False
+    over = None
+    for e in events:
+        if e[0] == "clear":
+            over = None
+        elif e[0] == "consumer":
+            if over is not None and e[1] > over:
+                return True
+            if over is None and e[1] > max_size:
+                over = e[1]
+    return False
 
 
 def ref_record_cases(stream, max_size, limit):
@@ -1386,6 +1416,11 @@ class StreamRecords(CodecJob):
     name = "c06::stream_reader_records[mirx]"
     pid = "C06"
 
+    def __init__(self, tier="quick", seed=0, pid="C06"):
+        CodecJob.__init__(self, tier, seed)
+        self.pid = pid
+        self.name = "%s::stream_reader_records[mirx]" % pid.lower()
+
     def configs(self):
         quick = self.tier == "quick"
         U = None
@@ -1436,9 +1471,13 @@ class StreamRecords(CodecJob):
         tag = "L%d-m%s-l%s-%s" % (L, cfg["max_size"], cfg["limit"], "w" + "_".join(map(str, cfg["sym"][:4])) if cfg.get("fixed") else "all")
         ob, viol = [], []
         alts = []
+        growth = []
         for ic, recs, kind, _f in impl:
             c = AND(*ic)
             if c is False:
+                continue
+            if kind == "buffers a skipped record":
+                growth.append("true" if c is True else c)
                 continue
             if kind != "eof":
                 alts.append("true" if c is True else c)
@@ -1465,6 +1504,16 @@ class StreamRecords(CodecJob):
             viol.append({"desc": "StreamReader records differ from the delimited valid records of the stream", "side": "stream", "input": inp, "cuts": [], "methods": [],
                          "limits": list(PROD), "max_size": cfg["max_size"], "limit": cfg["limit"],
                          "expected": {"kind": "ok", "bytes": [], "records": [[list(b), list(r)] for b, r in exp]}, "smt2": path})
+        if growth:
+            a3, _ans, model3, path3 = q.ask("sr-grow-" + tag, decls, [mir.disj(growth)])
+            ob.append(("stream reader %s: a record the judge skips is not buffered any further" % tag, a3))
+            if a3 == "sat":
+                mv = mir.model_values(model3)
+                inp = [int(mv.get(x.term, 0)) if isinstance(x, Sym) else x for x in data]
+                viol.append({"desc": "StreamReader keeps buffering a record after the judge said SkipRecord", "side": "stream-growth", "input": inp, "cuts": [], "methods": [],
+                             "limits": list(PROD), "max_size": cfg["max_size"], "limit": cfg["limit"], "expected": {"kind": "nogrowth", "bytes": []}, "smt2": path3})
+        elif cfg["max_size"] is not None:
+            ob.append(("stream reader %s: a record the judge skips is not buffered any further" % tag, "unsat"))
         cov = [AND(*x[0]) for x in impl]
         cov = ["true" if c is True else c for c in cov if c is not False]
         a2, _, _, _ = q.ask("sr-cov-" + tag, decls, ["(not %s)" % mir.disj(cov)], get_model=False) if cov else ("sat", None, "", "")
